@@ -189,9 +189,9 @@ def validate_cases(name, engine, trace_module, cases, constants, nshards=None, t
         merged["tlc_s"] = max(merged["tlc_s"], r["tlc_s"])
         merged["viol"] += r.get("viol", [])
         merged["drift"] += r.get("drift", [])
-        for k, v in r.items():
-            if k not in merged and isinstance(v, int):
-                merged[k] = merged.get(k, 0) + v
+        for k in ("heads", "polls", "steps"):
+            if k in r:
+                merged[k] = merged.get(k, 0) + r[k]
     return merged
 
 
